@@ -1023,6 +1023,35 @@ def c06_programs(tier, sd):
                     "world": [["h", "obj", "H"]],
                     "ops": [["randomize", ["h"]], ["randomize_with", ["h"], fail], ["list_append", ["h", "l"], 0], ["randomize", ["h"]],
                             ["randomize_with", ["h"], fail], ["list_append", ["h", "l"], 0], ["randomize_with", ["h"], [E(["<", F("k"), lit(9)])]], ["randomize", ["h"]]]})
+    # a derived class adds dynamic blocks whose names sort before / between the inherited ones; instances of both classes live
+    DD = {"name": "DD", "base": "D", "fields": [fld("e", ("u", 8))],
+          "blocks": [["a_first", "dyn", [E([">", b, lit(200)])]], ["d1a", "dyn", [E(["==", F("e"), lit(5)])]], ["zz", "dyn", [E(["<", F("e"), lit(3)])]]]}
+    prd = {"enums": {}, "classes": [D, DD]}
+    for first in ("base", "der"):
+        other = "der" if first == "base" else "base"
+        for dn in ("d0", "d1", "d2", "d3"):
+            ops = spoil("x") + [["set", ["base", "n"], 1], ["set", ["der", "n"], 2],
+                                ["randomize_with", [first], [E(dyn(dn))]], ["randomize_with", [other], [E(dyn(dn))]],
+                                ["randomize_with", ["der"], [E(dyn("a_first")), E(dyn(dn))]], ["randomize_with", ["der"], [E(["|", dyn("zz"), dyn("d1a")])]],
+                                ["randomize_with", ["base"], [E(["not", dyn(dn)])]], ["randomize_with", ["der"], [E(dyn(dn)), E(dyn("d1a"))]]]
+            out.append({"tag": "dyn_inherit", "desc": "derived class with extra dynamic blocks, first reference through %s, block %s" % (first, dn), "prog": prd,
+                        "world": [["base", "obj", "D"], ["der", "obj", "DD"], ["x", "obj", "DD"]], "ops": ops})
+    # the same dynamic block referenced more than once in one call (nested first, plain later and vice versa)
+    for il in ([E(["|", dyn("d0"), dyn("d1")]), E(dyn("d0"))], [E(dyn("d0")), E(["|", dyn("d0"), dyn("d1")])], [["implies", [">", c, lit(10)], [E(dyn("d2"))]], E(dyn("d2"))],
+               [E(["|", dyn("d1"), ["<", b, lit(3)]]), E(dyn("d1"))], [E(["not", dyn("d1")]), E(["|", dyn("d1"), dyn("d0")])], [E(dyn("d3")), E(dyn("d3"))],
+               [["if", [[["<", b, lit(128)], [E(dyn("d0"))]]], [E(dyn("d1"))]], E(dyn("d0"))]):
+        out.append({"tag": "dyn_twice", "desc": "dynamic block referenced twice %s" % (il,), "prog": pr, "world": [["o2", "obj", "D"], ["top", "obj", "D"]],
+                    "ops": spoil("o2") + [["set", ["top", "n"], 1], ["randomize_with", ["top"], il], ["randomize", ["top"]], ["randomize_with", ["top"], il]]})
+    # user code raising inside a randomize_with body after some statements: nothing of the abandoned body reaches a later call
+    for k in (1, 2):
+        body = [E(["==", a, lit(5)]), E(["==", b, lit(7)])]
+        body.insert(k, ["raise", "inline@%d" % k])
+        body.append(["raise", "inline@end"])
+        out.append({"tag": "inline_abandoned", "desc": "randomize_with body abandoned by a user exception at %d, then other calls" % k, "prog": pr,
+                    "world": [["top", "obj", "D"], ["o2", "obj", "D"]],
+                    "ops": [["set", ["top", "n"], 1], ["set", ["o2", "n"], 1], ["randomize_with", ["top"], body], ["randomize_with", ["top"], [E([">", a, lit(9)])]],
+                            ["randomize_with", ["top"], body], ["randomize_with", ["o2"], [E(["!=", b, lit(7)])]], ["randomize", ["top"]],
+                            ["randomize_with", ["o2"], body[:1] + [["raise", "x"]]], ["vsc_randomize_with", [["top"]], [E(["<", F("top", "a"), lit(3)])]]]})
     # inline-only sequences: leak between calls
     for i in range(30 if tier == "quick" else 4000):
         ops = [["set", ["top", "n"], rnd.randint(0, 3)]]
